@@ -118,6 +118,12 @@ func cmdRecord(args []string) int {
 			index = append(index, CallIndex{FirstLine: first, LastLine: tw.Lines, Session: s, Recipe: recipe,
 				InputB64: base64.StdEncoding.EncodeToString(b), Input: printable(b), Output: printable(cr.Output)})
 			res.judge(splitProps(*props), x, seenV)
+			// the same input through the string entry point: should it produce other bytes, they are judged as well
+			if cr.Rec.Panic == "" {
+				if alt := sess.Real.Sanitize(string(b)); alt != string(cr.Output) {
+					res.judge(splitProps(*props), NewExec(recipe, sess.Model, sess.Real, b, []byte(alt), cr.Rec), seenV)
+				}
+			}
 		}
 	}
 	tw.Flush()
